@@ -82,24 +82,30 @@ def reentrance_probe(sa, ret):
     return same, before, after, info
 
 
-def pick_interrupt_limits(drv, L2, stream, i, m):
-    """limits L1 with L1.grow L2 whose run (per the model, on the uninterrupted run's stream) stops exactly at index i"""
+def pick_interrupt_limits(drv, L2, stream, i, m, tol_first=False, rng=None):
+    """limits L1 with L1.grow L2 whose run (per the model, on the uninterrupted run's stream) stops exactly at index i.
+    Two families: the first leg is cut by max_evaluations (max = pts_i - 1), or it STOPS BY TOLERANCE t1 = err_i (or one ulp
+    above) and is continued with the smaller tolerance of L2 (grow: tol2 <= tol1).  returns (L1, prediction, "max"|"tol"|"same")"""
     e_i, p_i, _ = stream[i]
-    cands = []
+    by_max = [("max", dict(L2, max=p_i - 1)), ("max", {"tol": L2["tol"], "min": min(L2["min"], 1), "max": p_i - 1})]
+    by_tol = []
+    if math.isfinite(e_i) and e_i > L2["tol"]:
+        ts = [e_i, math.nextafter(e_i, math.inf)]
+        if rng is not None and rng.random() < 0.5:
+            ts.reverse()
+        for t1 in ts:
+            by_tol.append(("tol", {"tol": t1, "min": min(L2["min"], p_i), "max": L2["max"]}))
+            by_tol.append(("tol", {"tol": t1, "min": min(L2["min"], 1), "max": L2["max"]}))
+    cands = (by_tol + by_max) if tol_first else (by_max + by_tol)
     if i == m:
-        cands.append(dict(L2))
-    cands.append(dict(L2, max=p_i - 1))
-    if math.isfinite(e_i):
-        cands.append(dict(L2, tol=max(e_i, L2["tol"])))
-        cands.append({"tol": max(e_i, L2["tol"]), "min": min(L2["min"], p_i), "max": L2["max"]})
-    cands.append({"tol": L2["tol"], "min": min(L2["min"], 1), "max": p_i - 1})
-    for L1 in cands:
+        cands = ([("same", dict(L2))] + cands) if not tol_first else (cands + [("same", dict(L2))])
+    for kind, L1 in cands:
         if drv.ask("grow %s %s" % (lim_str(L1), lim_str(L2))) != "true":
             continue
         line = drv.ask("resume %s %s %s" % (lim_str(L1), lim_str(L2), stream_str(stream)))
         if line.startswith("stop1 i=%d " % i):
-            return L1, parse_stop(line.split(" ", 2)[2])
-    return None, None
+            return L1, parse_stop(line.split(" ", 2)[2]), kind
+    return None, None, None
 
 
 def check_config(ctx, drv, cfg, L2, max_index, case_out=None):
@@ -139,14 +145,18 @@ def check_config(ctx, drv, cfg, L2, max_index, case_out=None):
     rng_pts = [[ctx.rng.choice([0.0, 1.0, 0.5, 0.25, 0.3, 0.7, 0.123, 0.9, 0.625]) for _ in range(cfg["dim"])] for _ in range(5)]
     rng_pts = [tuple(p) for p in rng_pts]
     for i in range(m + 1):
-        L1, pred = pick_interrupt_limits(drv, L2, stream, i, m)
+        # dimension-wise: in 60 % of the indices the first leg is one that STOPPED BY TOLERANCE t1 > tol2 (when the errors
+        # allow it); the continuation must honour the NEW tolerance, not the one of the first call
+        L1, pred, first_stop = pick_interrupt_limits(drv, L2, stream, i, m, rng=ctx.rng,
+                                                     tol_first=(cfg["strategy"] == "dimwise" and ctx.rng.random() < 0.6))
         if L1 is None:
             ctx.count("index_not_reachable_by_limits")
             continue
+        ctx.count("first_leg_stopped_by_" + first_stop)
         outcomes = {}
         for save in (False, True):
             sub = dict(case, L1=L1, index=i, save=save)
-            tags = dict(base_tags, save=save, at_final=(i == m), index=i)
+            tags = dict(base_tags, save=save, at_final=(i == m), index=i, first_stop=first_stop)
             sa, eo, f = build(cfg)
             try:
                 r1 = perform(sa, eo, cfg, L1)
